@@ -26,7 +26,12 @@ func (i IgnoreErrors) Middleware(h message.HandlerFunc) message.HandlerFunc {
 	return func(msg *message.Message) ([]*message.Message, error) {
 		events, err := h(msg)
 		if err != nil {
-			if _, ok := i.ignoredErrors[errors.Cause(err).Error()]; ok {
+			cause := errors.Cause(err)
+			if cause == nil {
+				// an error whose Cause() reports nothing underneath is its own cause
+				cause = err
+			}
+			if _, ok := i.ignoredErrors[cause.Error()]; ok {
 				return events, nil
 			}
 
